@@ -4,6 +4,17 @@ import sys, os, json, subprocess, time
 ROOT = os.path.dirname(os.path.dirname(os.path.abspath(__file__)))
 sys.path.insert(0, os.path.join(ROOT, "harness"))
 import registry
+import shutil, tempfile
+EVBAK = tempfile.mkdtemp(prefix="evbak_")      # evidence files must come from runs on the unchanged tree: save and restore them
+for f in os.listdir(os.path.join(ROOT, "evidence")):
+    if f.endswith(".json"):
+        shutil.copy(os.path.join(ROOT, "evidence", f), EVBAK)
+import atexit
+def _restore():
+    for f in os.listdir(EVBAK):
+        shutil.copy(os.path.join(EVBAK, f), os.path.join(ROOT, "evidence", f))
+    shutil.rmtree(EVBAK, ignore_errors=True)
+atexit.register(_restore)
 ids = sys.argv[1:] or sorted(os.listdir(os.path.join(ROOT, "seeded")))
 summary = []
 for sid in ids:
